@@ -382,7 +382,9 @@ func cmdCheck(args []string) {
 				if ob.MaxPartMs > 0 {
 					slowest = ob.MaxPartMs
 				}
-				if slowest > int64(to*1000*7/10) {
+				if slowest > int64(to*1000*7/10) && !claimed[name] {
+					// (an obligation that is already claimed is not dropped for being slow in one run: how long a query
+					// takes depends on what else the machine is doing)
 					notes = append(notes, "unclaimed (slow): "+name)
 					continue
 				}
